@@ -48,6 +48,10 @@ func ReadIntoGraph(ctx context.Context, g storage.Graph, r io.Reader, b literal.
 		cnt++
 		g.AddTriples(ctx, []*triple.Triple{t})
 	}
+	if err := scanner.Err(); err != nil {
+		// For instance a line longer than bufio.MaxScanTokenSize; the lines after it are not read.
+		return cnt, err
+	}
 	return cnt, nil
 }
 
